@@ -583,6 +583,12 @@ where
         assert!(LOG2_BASE.is_multiple_of(8));
         let nb_bytes_per_limb = LOG2_BASE as usize / 8;
 
+        // The empty sequence of bytes represents zero (a big unsigned integer
+        // always has at least one limb).
+        if bytes.is_empty() {
+            return self.assign_fixed_biguint(layouter, BigUint::ZERO);
+        }
+
         let limbs = bytes
             .chunks(nb_bytes_per_limb)
             .map(|chunk_bytes| self.native_gadget.assigned_from_le_bytes(layouter, chunk_bytes))
